@@ -11,6 +11,7 @@ import (
 
 	"verif/sim/chainsim"
 	"verif/sim/simkit"
+	"verif/sim/simrt"
 )
 
 // ---- C19: sync picks the best peer, serves correct chain segments, converges safely -----------------------------------
@@ -77,6 +78,7 @@ func quietTail(t *rapid.T, w *chainsim.World, m *chainsim.Monitor, adv *chainsim
 	budget := time.Duration(4*len(w.Vals)+4) * w.BlockTime
 	tipsBefore := tipsSummary(w)
 	forgedBefore := s.Stats["forged"]
+	quietStart := s.Now()
 	s.Run(s.Now()+budget, 600000, nil)
 	m.Raise()
 	if s.Stats["forged"] == forgedBefore {
@@ -142,6 +144,39 @@ func quietTail(t *rapid.T, w *chainsim.World, m *chainsim.Monitor, adv *chainsim
 				simkit.Probe("c19_tail_chain_conflicts_with_a_peers_finalized_block_no_verdict")
 				return
 			}
+		}
+	}
+	// The clause is about a node that is *offered* a better chain: the chain has to be announced, and chains are
+	// announced by their new blocks. When nobody extended the best chain while the network was quiet (its generators
+	// refuse to sign heights again after their own chain was cut back, or they are the adversary's), the holders of worse
+	// chains never heard of it and discarding each other's worse blocks is what fork choice tells them to do.
+	{
+		var best *chainsim.TreeBlock
+		for _, n := range s.Nodes {
+			if !n.Up || n.IsAdversary {
+				continue
+			}
+			tb := m.Tree.ByID[string(n.Tip().ID)]
+			if tb == nil {
+				continue
+			}
+			if best == nil || tb.Header.MaxHeightPrevoted > best.Header.MaxHeightPrevoted ||
+				(tb.Header.MaxHeightPrevoted == best.Header.MaxHeightPrevoted && tb.Header.Height > best.Header.Height) {
+				best = tb
+			}
+		}
+		offered := false
+		lo := uint32(simrt.Epoch.Add(quietStart).Unix())
+		hi := uint32(simrt.Epoch.Add(quietStart + budget - budget/4).Unix())
+		for x := best; x != nil && x.Header.Timestamp >= lo; x = x.Parent {
+			if x.Header.Timestamp <= hi {
+				offered = true
+				break
+			}
+		}
+		if !offered {
+			simkit.Probe("c19_tail_best_chain_not_extended_in_the_quiet_phase_no_verdict")
+			return
 		}
 	}
 	simkit.Probe("c19_convergence_checked")
